@@ -92,10 +92,11 @@ structure State where
   core    : Core
   probing : List (List Bytes)               -- multiset of target lists whose probe loops run
   idx     : List ((Bytes × Slot) × Nat)     -- rotation index per installed load balancer
+  sick    : List Bytes := []                -- targets whose latest probe failed (the world's doing, not a command's)
 deriving Repr
 
 def Core.init : Core := ⟨[], none⟩
-def State.init : State := ⟨Core.init, [], []⟩
+def State.init : State := ⟨Core.init, [], [], []⟩
 def State.svcs (s : State) : List Svc := s.core.svcs
 def State.file (s : State) : Option (List SvcSnap) := s.core.file
 
